@@ -122,8 +122,12 @@ let decode_case (line : string) : string =
   let (es, ts) = decode (z_of_string (String.trim line)) in
   string_of_z es ^ " " ^ string_of_z ts
 
+(* disable: one descriptor table per line -> the table after uv_disable_stdio_inheritance() *)
+let disable_case (line : string) : string =
+  str_table (disable_stdio_inheritance (parse_table line))
+
 let () =
   let f = match Sys.argv.(1) with
-    | "run" -> run_case | "decode" -> decode_case
+    | "run" -> run_case | "decode" -> decode_case | "disable" -> disable_case
     | _ -> failwith "mode" in
   iter_lines (fun l -> print_string (try f l with Failure m -> "ERROR " ^ m); print_newline ())
